@@ -289,14 +289,14 @@ def run(ctx, only=None, floors=True, clients=None):
             for bi2, t2 in Body(h).calls():
                 if re.search(r"DepOrderer::<.*>::push$", callee_name(t2) or "") or reaches_push(callee_id(t2), depth + 1):
                     r = True
-            for cf, abb, an in od.closure_loops(F, h):
+            for cf, abb, an in od.closure_calls(F, h):
                 if reaches_push(cf.id, depth + 1):
                     r = True
             reach_memo[fid] = r
             return r
         is_push = lambda t: bool(re.search(r"DepOrderer::<.*>::push$", callee_name(t) or "")) or (callee_id(t) != g.id and reaches_push(callee_id(t)))
         pcs = [bi for bi, t in gb.calls() if is_push(t)]
-        pcs += [abb for cf, abb, an in od.closure_loops(F, g) if reaches_push(cf.id) and abb not in pcs]
+        pcs += [abb for cf, abb, an in od.closure_calls(F, g) if reaches_push(cf.id) and abb not in pcs]
         if not pcs:
             ctx.violation("R17.3", key, "%s never pushes a dependency" % key, site)
             continue
@@ -311,6 +311,10 @@ def run(ctx, only=None, floors=True, clients=None):
             for bi, arms, other, eid in sws:
                 for v, tgt in arms.items():
                     if od.region(gb, tgt) & set(pcs):
+                        covered.add(v)
+                    elif not od.normal_exit_reachable(gb, tgt, blocks_removed=pcs):
+                        # the arm computes the dependency and the push follows the match: every normal way out of the
+                        # arm passes a push
                         covered.add(v)
             missing = [v for v in allv if v not in covered]
             if not sws:
